@@ -198,6 +198,11 @@ func dumpInternal(s *state.StateDB) string {
 		} else {
 			fl += "-"
 		}
+		if present { // the read cache: getStateObject stores every object it loads (Aqv.Model.StateCache.loadObj)
+			fl += "p"
+		} else {
+			fl += "n"
+		}
 	}
 	jl, rl := s.VerifJournalLen()
 	return fmt.Sprintf("D%s;F%s;J%d.%d", strings.Join(ds, "."), fl, jl, rl)
